@@ -9,6 +9,7 @@ import (
 	"os"
 	"sort"
 	"sync"
+	"time"
 
 	"verif/harness/world"
 )
@@ -27,6 +28,7 @@ type Event struct {
 	Seed    int64         `json:"seed,omitempty"`
 	Applied bool          `json:"applied,omitempty"`
 	Twin    bool          `json:"twin,omitempty"` // scan: also scan a clone with a fresh controller
+	RealMs  int64         `json:"realMs,omitempty"` // init: real-time mode with ticks of this many milliseconds
 }
 
 // apply performs one environment event on the world; false if it did not apply.
@@ -497,7 +499,11 @@ func driveOne(src string, seed int64, o genOpts, tr, ev *out) int {
 	// buffer this history's lines so that histories do not interleave in the output
 	var lines []interface{}
 	var evs []interface{}
-	evs = append(evs, Event{Ev: "init", Src: src, State: init, Seed: seed})
+	ie := Event{Ev: "init", Src: src, State: init, Seed: seed}
+	if world.RealTime {
+		ie.RealMs = int64(world.Tick / time.Millisecond)
+	}
+	evs = append(evs, ie)
 	nextID := map[string]int{}
 	scans := 0
 	for i := 0; i < o.steps; i++ {
@@ -580,6 +586,11 @@ func cmdReplay(fs *flag.FlagSet, args []string) {
 			skip = *only != "" && e.Src != *only
 			if skip {
 				continue
+			}
+			if e.RealMs > 0 {
+				world.Tick, world.RealTime = time.Duration(e.RealMs)*time.Millisecond, true
+			} else {
+				world.Tick, world.RealTime = time.Hour, false
 			}
 			w, err = world.Build(e.Seed, e.State)
 			if err != nil {
